@@ -371,6 +371,46 @@ void sexp_conservative_mark (sexp ctx) {
 #endif
 
 #if SEXP_USE_WEAK_REFERENCES
+/* An ephemeron keeps its value alive exactly while its key is alive. */
+/* The value is not a regular slot (it must not be traced when the */
+/* key is dead), so after the main mark phase the values of all live */
+/* ephemerons with live keys are marked, repeating until nothing */
+/* changes since a value may be what keeps another key alive. */
+static void sexp_mark_ephemeron_values(sexp ctx) {
+  int changed;
+  sexp_heap h;
+  sexp p, end, key, val;
+  sexp_free_list q, r;
+  if (sexp_not(sexp_global(ctx, SEXP_G_WEAK_OBJECTS_PRESENT)))
+    return;
+  do {
+    changed = 0;
+    for (h = sexp_context_heap(ctx) ; h; h=h->next) {
+      p = sexp_heap_first_block(h);
+      q = h->free_list;
+      end = sexp_heap_end(h);
+      while (p < end) {
+        for (r=q->next; r && ((char*)r<(char*)p); q=r, r=r->next)
+          ;
+        if ((char*)r == (char*)p) { /* this is a free block, skip it */
+          p = (sexp) (((char*)p) + r->size);
+          continue;
+        }
+        if (sexp_markedp(p) && sexp_pointer_tag(p) == SEXP_EPHEMERON) {
+          key = sexp_ephemeron_key(p);
+          val = sexp_ephemeron_value(p);
+          if (val && sexp_pointerp(val) && !sexp_markedp(val)
+              && !(key && sexp_pointerp(key) && !sexp_markedp(key))) {
+            sexp_mark(ctx, val);
+            changed = 1;
+          }
+        }
+        p = (sexp) (((char*)p)+sexp_heap_align(sexp_allocated_bytes(ctx, p)));
+      }
+    }
+  } while (changed);
+}
+
 int sexp_reset_weak_references(sexp ctx) {
   int i, len, broke, all_reset_p;
   sexp_heap h;
@@ -420,6 +460,7 @@ int sexp_reset_weak_references(sexp ctx) {
   return broke;
 }
 #else
+#define sexp_mark_ephemeron_values(ctx)
 #define sexp_reset_weak_references(ctx) 0
 #endif
 
@@ -572,6 +613,7 @@ sexp sexp_gc (sexp ctx, size_t *sum_freed) {
   sexp_mark_global_symbols(ctx);
   sexp_mark(ctx, ctx);
   sexp_conservative_mark(ctx);
+  sexp_mark_ephemeron_values(ctx);
   sexp_reset_weak_references(ctx);
   finalized = sexp_finalize(ctx);
   res = sexp_sweep(ctx, sum_freed);
